@@ -412,8 +412,10 @@ impl WireEncode for WireHostAddr {
             WireHostAddr::V4(_) => Ok(()),
             WireHostAddr::V6(_) => Ok(()),
             WireHostAddr::Svc(_) => Ok(()),
-            WireHostAddr::Unknown { bytes, .. } => {
-                if bytes.is_empty() {
+            WireHostAddr::Unknown { id, bytes } => {
+                if *id > 0b11 {
+                    Err("ScionHostAddr::Unknown id must fit the 2 bit address type".into())
+                } else if bytes.is_empty() {
                     Err("ScionHostAddr::Unknown bytes.len() must be non-zero".into())
                 } else if !bytes.len().is_multiple_of(4) {
                     Err("ScionHostAddr::Unknown bytes.len() must be a multiple of 4".into())
